@@ -138,8 +138,8 @@ def check_adapter(ctx):
                 base_list = a.value
         for ev in p.events:
             if ev.kind == 'call' and method_call(ev.node, 'append') and \
-                    base_list is not None and U(
-                        method_call(ev.node)[0]) == U(base_list):
+                    base_list is not None and U(t.expand(
+                        method_call(ev.node)[0])) == U(base_list):
                 args.append(U(ev.node.args[0]))
         kws = {k.arg: U(k.value) for k in e.keywords}
         # threshold condition
